@@ -4,6 +4,8 @@ import (
 	"fmt"
 	"strings"
 
+	"github.com/go-kid/ioc/app"
+
 	"verif/internal/core"
 	"verif/internal/envx"
 	"verif/internal/scen"
@@ -28,9 +30,37 @@ type c13Case struct {
 	Fail       int   `json:"failing"`   // -1 none
 	Background int   `json:"background"`
 	Desc       bool  `json:"descending_order,omitempty"`
-	Zero       int   `json:"zero_size_runners,omitempty"` // mask over stateless (field-less) runner types Z1,Z2,Z3
-	ErrShape   int   `json:"err_shape,omitempty"`         // what kind of error value the failing runner returns (scen.Err*)
+	Zero       int   `json:"zero_size_runners,omitempty"`     // mask over stateless (field-less) runner types Z1,Z2,Z3
+	ErrShape   int   `json:"err_shape,omitempty"`             // what kind of error value the failing runner returns (scen.Err*)
+	AppDep     int   `json:"runners_depend_on_app,omitempty"` // runners hold the App itself: 1 = named to be created before it, 2 = after it
 }
+
+// runners that hold the App itself (they sit on a cycle with the App's own slice of runners)
+type c13AppRunP struct {
+	scen.RunP
+	A     *app.App `wire:""`
+	early bool
+}
+type c13AppRunO struct {
+	scen.RunO
+	A     *app.App `wire:""`
+	early bool
+}
+type c13AppRunN struct {
+	scen.RunN
+	A     *app.App `wire:""`
+	early bool
+}
+
+func c13AppName(nm string, early bool) string {
+	if early {
+		return "a-" + nm // sorts before the App's own component name
+	}
+	return nm
+}
+func (r *c13AppRunP) Naming() string { return c13AppName(r.Nm, r.early) }
+func (r *c13AppRunO) Naming() string { return c13AppName(r.Nm, r.early) }
+func (r *c13AppRunN) Naming() string { return c13AppName(r.Nm, r.early) }
 
 func c13Gen(c *core.Ctx) func(yield func(c13Case) bool) {
 	return func(yield func(c13Case) bool) {
@@ -39,7 +69,7 @@ func c13Gen(c *core.Ctx) func(yield func(c13Case) bool) {
 			for _, s := range [][]int{nil, {10}, {0, 5}} {
 				for bg := 0; bg < 3; bg++ {
 					for _, d := range []bool{false, true} {
-						if !yield(c13Case{s, 0, -1, bg, d, z, 0}) {
+						if !yield(c13Case{Seq: s, Fail: -1, Background: bg, Desc: d, Zero: z}) {
 							return
 						}
 					}
@@ -56,6 +86,21 @@ func c13Gen(c *core.Ctx) func(yield func(c13Case) bool) {
 							stop = true
 							return false
 						}
+					}
+				}
+				return true
+			})
+			if stop {
+				return
+			}
+		}
+		for dep := 1; dep <= 2; dep++ {
+			stop := false
+			seqs(2, 11, func(s []int) bool {
+				for _, d := range []bool{false, true} {
+					if !yield(c13Case{Seq: s, Fail: -1, Desc: d, AppDep: dep}) {
+						stop = true
+						return false
 					}
 				}
 				return true
@@ -84,7 +129,7 @@ func c13Gen(c *core.Ctx) func(yield func(c13Case) bool) {
 				for f := -1; f < n; f++ {
 					for bg := 0; bg < 3; bg++ {
 						for _, d := range []bool{false, true} {
-							if !yield(c13Case{s, m, f, bg, d, 0, 0}) {
+							if !yield(c13Case{Seq: s, LazyMask: m, Fail: f, Background: bg, Desc: d}) {
 								return false
 							}
 						}
@@ -123,6 +168,12 @@ func c13Run(c *core.Ctx) {
 				part := scen.Part{Nm: names[i], O: c12Order(s), RT: rt, Fail: i == cs.Fail}
 				lazy := cs.LazyMask>>i&1 == 1
 				switch {
+				case cs.AppDep != 0 && c12Class(s) == 0:
+					out = append(out, &c13AppRunP{RunP: scen.RunP{Part: part}, early: cs.AppDep == 1})
+				case cs.AppDep != 0 && c12Class(s) == 1:
+					out = append(out, &c13AppRunO{RunO: scen.RunO{Part: part}, early: cs.AppDep == 1})
+				case cs.AppDep != 0:
+					out = append(out, &c13AppRunN{RunN: scen.RunN{Part: part}, early: cs.AppDep == 1})
 				case c12Class(s) == 0 && lazy:
 					out = append(out, &scen.RunPZ{RunP: scen.RunP{Part: part}})
 				case c12Class(s) == 0:
@@ -185,6 +236,9 @@ func c13Run(c *core.Ctx) {
 		desc := fmt.Sprintf("runners %v lazy=%b failing=%d background=%d", symn, cs.LazyMask, cs.Fail, cs.Background)
 		if cs.ErrShape != 0 {
 			desc += fmt.Sprintf(" error-shape=%d", cs.ErrShape)
+		}
+		if cs.AppDep != 0 {
+			desc += fmt.Sprintf(" runners-hold-the-App=%d", cs.AppDep)
 		}
 		if o.Panic != "" || o.Abort != "" {
 			c.Outcome("crash")
@@ -289,7 +343,7 @@ func c13Run(c *core.Ctx) {
 // c13Yield4: four runners (thorough): all eager, every failing position, one background, one order.
 func c13Yield4(yield func(c13Case) bool, s []int) bool {
 	for f := -1; f < 4; f++ {
-		if !yield(c13Case{s, 0, f, 1, false, 0, 0}) {
+		if !yield(c13Case{Seq: s, Fail: f, Background: 1}) {
 			return false
 		}
 	}
